@@ -77,7 +77,8 @@ Definition settle1 (h : state) (e : endpoint) : option (state * endpoint) :=
                           then Some (inject h (e_base e + S i) (sop o), e_set e (e_ops e) (Some (S i)) (e_out e) lg (e_done e))
                           else Some (h, e_set e rest None (BOk :: e_out e) lg ((o, BOk) :: e_done e)) in
               match o, r with
-              | BSend _, RConnErr => finish BConnErr
+              | BSend _, ROk => next
+              | BSend _, _ => finish BConnErr       (* ConnectionError: the loop over the sockets is abandoned *)
               | BRecv, RMsg m => finish (BMsg (nth i (e_remotes e) 0) m)
               | BRecv, _ =>             (* nothing there: poll the next socket, wrapping around *)
                   let j := if S i <? n then S i else 0 in
